@@ -34,10 +34,11 @@ def string_obligations(positions, nmax, kf, mutants=None, min_len=None, skip=Non
     return obs
 
 
-def concrete_crosscheck(harness, positions, alphabet, maxlen, admissible):
+def concrete_crosscheck(harness, positions, alphabet, maxlen, admissible, params=None):
     """Run harness bodies concretely (untraced) on every string up to maxlen over the interesting
     alphabet.  admissible(h, fn, s) mirrors the harness preconditions."""
-    os.environ['VPX_PARAMS'] = '{}'
+    import json
+    os.environ['VPX_PARAMS'] = json.dumps(params or {})
     h = importlib.import_module(harness)
     n = 0
     fails = []
